@@ -2,6 +2,7 @@ import Enc.Model.Proto
 import Enc.Model.ProtoTo
 import Enc.Model.ProtoAlloc
 import Enc.Model.ProtoMsg
+import Enc.Model.ProtoMsgObserver
 import Enc.Driver.ProtoZoo
 import Enc.Spec.Protobuf
 import Enc.Spec.Known
@@ -188,6 +189,16 @@ def handle (op : String) (args : List String) : Option (String × String × Stri
     let v ← Val.parse v
     let m := match Model.Proto.marshalUsr Model.Proto.zooOps ty v with
       | .ok b =>
+        /- the invariant `Lemmas.ProtoMsg.PresentsLeavesOnce` (hypothesis `hinv` of `Props.C03.unmarshal_marshal_opaque_failing_partial`,
+           not yet proved in general), evaluated on every generated message: with the OBSERVER in place of the user types
+           (`Model.Proto.guardOps`: accepts only the encodings of the leaves of `v`, only on a zero receiver) `Unmarshal` does on the
+           bytes `Marshal` wrote what the payload-level decoder does. A message on which it fails is reported as a model
+           observable no implementation produces, i.e. as DRIFT. -/
+        let calls := Model.Proto.leafCalls Model.Proto.zooOps (Model.Proto.codecOf ty) v
+        let obs := Model.Proto.unmarshalUsr (Model.Proto.guardOps fun q => calls.contains q) ty b
+        if showDec ty obs != showDec ty (Model.Proto.unmarshal ty b) then
+          "INVARIANT PresentsLeavesOnce VIOLATED: observer=" ++ showDec ty obs ++ " payload-level=" ++ showDec ty (Model.Proto.unmarshal ty b)
+        else
         s!"sz={Model.Proto.marshalSizeUsr Model.Proto.zooOps ty v};len={b.length};rt="
           ++ showDec ty (Driver.ProtoZoo.mapRes (Driver.ProtoZoo.showZero ty) (Model.Proto.unmarshalUsr Model.Proto.zooOps ty b))
       | .err _ => "marshal-err"
